@@ -873,13 +873,44 @@ static std::string ListDiff(const char * ta, const std::vector<std::string> & a,
    return "equal";
 }
 
+// Every place that drives a C++ gateway's output does it with PRNG-chosen per-call budgets DoOutput(maxBytes): 1, 7, 8, 9 (ending just
+// inside / exactly at / just after the first header), 100, small random, thousands, 256 kB (ReflectServer's default) and unlimited.
+// The concatenation over all calls must be exactly the documented frames.
+static uint32 PickBudget(size_t sofar)
+{
+   if (sofar < 4096) switch (R(14)) { case 0: return 1; case 1: return 7; case 2: return 8; case 3: return 9; case 4: return 100; case 5: case 6: return 1 + R(40); default: break; }
+   switch (R(6)) { case 0: return 100 + R(300); case 1: return 1000 + R(5000); case 2: return 262144; case 3: return MUSCLE_NO_LIMIT; default: return 20 + R(2000); }
+}
+// sink: the bytes written so far (live reference); budgetEnds: stream offsets at which a call returned because its budget was used up
+static bool DriveOutput(MessageIOGateway & gw, const std::string & sink, std::vector<size_t> & budgetEnds, std::string & why, int maxCalls = 0x7FFFFFFF)
+{
+   const int mode = (int)R(4); const uint32 fixedSmall = PickBudget(0), fixedLarge = 50 + R(6000);
+   for (int calls = 0; gw.HasBytesToOutput() && calls < maxCalls; calls++) {
+      const uint32 b = mode == 0 ? MUSCLE_NO_LIMIT : mode == 1 ? (sink.size() < 4096 ? fixedSmall : fixedLarge) : PickBudget(sink.size());
+      const io_status_t r = gw.DoOutput(b);
+      if (r.IsError()) { why = std::string("MessageIOGateway::DoOutput: ") + r.GetStatus()(); return false; }
+      if (b != MUSCLE_NO_LIMIT && (uint32)r.GetByteCount() > b) { why = vh::fmt("DoOutput(%u) reports %d bytes written", b, r.GetByteCount()); return false; }
+      if (b != MUSCLE_NO_LIMIT && (uint32)r.GetByteCount() == b) budgetEnds.push_back(sink.size());
+      if (maxCalls != 0x7FFFFFFF && r.GetByteCount() == 0) break;   // (socket would block)
+   }
+   return true;
+}
+// how many of those offsets lie strictly inside a frame of the (well-formed) stream
+static long BudgetEndsInsideFrames(const std::string & stream, const std::vector<size_t> & ends)
+{
+   std::set<size_t> bounds; size_t off = 0; bounds.insert(0);
+   while (off + 8 <= stream.size()) { off += 8 + ((uint32_t)(unsigned char)stream[off] | ((uint32_t)(unsigned char)stream[off + 1] << 8) | ((uint32_t)(unsigned char)stream[off + 2] << 16) | ((uint32_t)(unsigned char)stream[off + 3] << 24)); bounds.insert(off); }
+   long n = 0; for (size_t i = 0; i < ends.size(); i++) if (!bounds.count(ends[i])) n++;
+   return n;
+}
+static long budgetInside;   // per case, added to the statistics by the caller
 // C++ MessageIOGateway: Messages -> stream (memory)
 static bool CppOut(const std::vector<MessageRef> & ms, std::string & stream, std::string & why)
 {
    MemPipe p; MessageIOGateway gw; gw.SetDataIO(DataIORef(new MemIO(NULL, &p)));
    for (size_t i = 0; i < ms.size(); i++) if (gw.AddOutgoingMessage(ms[i]).IsError()) HarnessAbort("AddOutgoingMessage");
-   while (gw.HasBytesToOutput()) { io_status_t r = gw.DoOutput(); if (r.IsError()) { why = std::string("MessageIOGateway::DoOutput: ") + r.GetStatus()(); return false; } }
-   stream = p.q; return true;
+   std::vector<size_t> ends; if (!DriveOutput(gw, p.q, ends, why)) return false;
+   stream = p.q; budgetInside += BudgetEndsInsideFrames(stream, ends); return true;
 }
 // stream -> C++ MessageIOGateway -> flattened bodies
 static bool CppIn(const std::string & stream, std::vector<std::string> & bodies, std::string & why)
@@ -968,15 +999,17 @@ static void FrameShutdown() { EchoDown(false); }
 
 // returns "" when all n echoes arrived, otherwise what ended the wait (decided without a clock: closed connection, gateway
 // error, or a proved stall = everything sent, nothing readable, every thread of the peer asleep with no CPU use over 6 samples)
+static std::vector<size_t> echoBudgetEnds;
 static std::string EchoExchange(const std::vector<MessageRef> & ms, Rx & rx)
 {
+   echoBudgetEnds.clear();
    for (size_t i = 0; i < ms.size(); i++) if (echo.gw->AddOutgoingMessage(ms[i]).IsError()) HarnessAbort("AddOutgoingMessage");
    SocketMultiplexer sm; const int fd = echo.sock.GetFileDescriptor(); int idle = 0; unsigned long long cpu = 0;
    while (rx.got.size() < ms.size()) {
       const size_t in0 = echo.rec->in.size(), out0 = echo.rec->out.size();
       (void)sm.RegisterSocketForReadReady(fd); if (echo.gw->HasBytesToOutput()) (void)sm.RegisterSocketForWriteReady(fd);
       (void)sm.WaitForEvents(GetRunTime64() + MillisToMicros(500));
-      if (echo.gw->HasBytesToOutput()) { io_status_t r = echo.gw->DoOutput(); if (r.IsError()) return std::string("C++ gateway cannot write: ") + r.GetStatus()(); }
+      if (echo.gw->HasBytesToOutput()) { std::string dwhy; if (!DriveOutput(*echo.gw, echo.rec->out, echoBudgetEnds, dwhy, 64)) return "C++ gateway cannot write: " + dwhy; }
       io_status_t r = echo.gw->DoInput(rx);
       if (r.IsError()) return std::string(echo.rec->eof ? "connection closed by the python peer: " : "C++ gateway rejects what the python peer sent: ") + r.GetStatus()();
       if (echo.rec->in.size() != in0 || echo.rec->out.size() != out0 || echo.gw->HasBytesToOutput()) { idle = 0; continue; }
@@ -1040,7 +1073,7 @@ static void ZlibSenderLeg(const std::vector<Scr> & ss0, int level, bool countSta
    if (ms.empty()) { ms.push_back(BuildCpp(TinyScript())); plain.push_back(FlatCpp(*ms.back()())); tiny++; }
    MemPipe p; MessageIOGateway gw; gw.SetOutgoingEncoding(MUSCLE_MESSAGE_ENCODING_ZLIB_1 + level - 1); gw.SetDataIO(DataIORef(new MemIO(NULL, &p)));
    for (size_t i = 0; i < ms.size(); i++) if (gw.AddOutgoingMessage(ms[i]).IsError()) HarnessAbort("AddOutgoingMessage");
-   while (gw.HasBytesToOutput()) { io_status_t r = gw.DoOutput(); if (r.IsError()) { Fail("gw|zlib-sender-output-error", std::string("MessageIOGateway::DoOutput: ") + r.GetStatus()()); return; } }
+   std::vector<size_t> ends; std::string dwhy; if (!DriveOutput(gw, p.q, ends, dwhy)) { Fail("gw|zlib-sender-output-error", dwhy); return; }
    std::string key; long deflated = 0, small = 0; const std::string bad = WalkZlibStream(p.q, plain, level, key, deflated, small);
    if (!bad.empty()) { Fail(key, vh::fmt("sender with MUSCLE_MESSAGE_ENCODING_ZLIB_%d, %zu Messages: ", level, ms.size()) + bad); return; }
    std::vector<std::string> got; std::string why;
@@ -1053,12 +1086,12 @@ static void ZlibSenderLeg(const std::vector<Scr> & ss0, int level, bool countSta
       got.clear(); const bool uok = MicroIn(tail, got, why); if (uok || !got.empty()) { Fail("gw|micro-gateway-takes-zlib-frame", vh::fmt("UGDoInput on a ZLIB_%d frame: no error return, %zu Messages delivered", level, got.size())); return; }
       if (countStats) vh::stat("c_gateways_refused_zlib_frame", 2);
    }
-   if (countStats) { vh::stat("zlib_sender_streams_checked"); vh::stat(vh::fmt("zlib_sender_level_%d", level)); vh::stat("zlib_frames_deflated", deflated); vh::stat("zlib_frames_sent_plain_below_32_bytes", small); vh::stat("zlib_tiny_messages_mixed_in", tiny); }
+   if (countStats) { vh::stat("dooutput_budget_ended_inside_a_frame", BudgetEndsInsideFrames(p.q, ends)); vh::stat("zlib_sender_streams_checked"); vh::stat(vh::fmt("zlib_sender_level_%d", level)); vh::stat("zlib_frames_deflated", deflated); vh::stat("zlib_frames_sent_plain_below_32_bytes", small); vh::stat("zlib_tiny_messages_mixed_in", tiny); }
 }
 
 static void RunFrame(long k)
 {
-   caseBad = false; deferredKey.clear();
+   caseBad = false; deferredKey.clear(); budgetInside = 0;
    if (ugIn.empty()) { ugIn.resize(2 * 1024 * 1024); ugOut.resize(2 * 1024 * 1024); }
    Prof p; p.pySafe = true; p.nonAsciiNames = !Masked("pynames") && R(5) == 0; p.big = R(4) == 0; p.maxDepth = 3; p.zeroItems = false;   // (the C gateways' native builders cannot hold zero-item fields)
    const uint32 n = 1 + (R(3) == 0 ? R(12) : R(4));
@@ -1078,7 +1111,7 @@ static void RunFrame(long k)
    if (!caseBad) { got.clear(); if (!MicroIn(sc, got, why)) Fail("gw|micro-gateway-rejects-cpp-frames", why); else if (got != bodies) Fail("gw|micro-gateway-reads-cpp-frames-differently", ListDiff("sent", bodies, "micro gateway", got)); }
    if (!caseBad) { got.clear(); if (!CppIn(sm, got, why)) Fail("gw|cpp-gateway-rejects-mini-frames", why); else if (got != bodies) Fail("gw|cpp-gateway-reads-mini-frames-differently", ListDiff("sent", bodies, "c++ gateway", got)); }
    if (!caseBad) { got.clear(); if (!CppIn(su, got, why)) Fail("gw|cpp-gateway-rejects-micro-frames", why); else if (got != bodies) Fail("gw|cpp-gateway-reads-micro-frames-differently", ListDiff("sent", bodies, "c++ gateway", got)); }
-   if (!caseBad) vh::stat("frames_compared_in_memory", (long)n);
+   if (!caseBad) { vh::stat("frames_compared_in_memory", (long)n); vh::stat("dooutput_budget_ended_inside_a_frame", budgetInside); }
    if (!caseBad) ZlibSenderLeg(ss, 1 + (int)R(9), true);
 
    // ---- (3) TCP loopback: C++ MessageIOGateway <-> message_transceiver_thread.py echoing every Message
@@ -1096,7 +1129,7 @@ static void RunFrame(long k)
       else if (rx.got != bodies) Fail(defect ? defect : "gw|python-echo-differs", ListDiff("sent", bodies, "echoed", rx.got));
       else if (echo.rec->in != echo.rec->out) Fail(defect ? defect : "gw|python-frame-bytes-vs-cpp-frame-bytes", DiffText("c++ gateway wrote", echo.rec->out, "python wrote", echo.rec->in));
       else {
-         vh::stat("frames_echoed_by_python", (long)n); vh::stat("tcp_bytes_echoed", (long)doc.size());
+         vh::stat("frames_echoed_by_python", (long)n); vh::stat("tcp_bytes_echoed", (long)doc.size()); vh::stat("dooutput_budget_ended_inside_a_frame_on_tcp", BudgetEndsInsideFrames(echo.rec->out, echoBudgetEnds));
          // what Python wrote is also what the two C gateways accept
          got.clear(); if (!MiniIn(echo.rec->in, got, why) || got != bodies) Fail("gw|mini-gateway-of-python-frames", why);
          got.clear(); if (!caseBad && (!MicroIn(echo.rec->in, got, why) || got != bodies)) Fail("gw|micro-gateway-of-python-frames", why);
@@ -1135,11 +1168,11 @@ static const char * DOC_HEX =
 static void Regress()
 {
    std::string why;
-   vh::begin_case(0);   // the documented layout, byte by byte, in all implementations
+   if (vh::ctx().from <= 0) vh::begin_case(0); if (vh::ctx().from <= 0)   // the documented layout, byte by byte, in all implementations
    { g = vh::Rng(100); const Scr s = DocScript(); RunWire(0, s, true);
      MessageRef m = BuildCpp(s); const std::string bc = FlatCpp(*m()), doc = FromHex(DOC_HEX);
      if (bc != doc) { caseBad = false; Fail("witness|documented-example-bytes", DiffText("hand-written from the layout comment", doc, "c++", bc)); } }
-   vh::begin_case(1);   // message.py's own documentation example (its __main__ stub) is readable by the C++ and C codecs
+   if (vh::ctx().from <= 1) vh::begin_case(1); if (vh::ctx().from <= 1)   // message.py's own documentation example (its __main__ stub) is readable by the C++ and C codecs
    { caseBad = false; curJson = "(message.py example)"; EnsureWirePeer(); wirePeer.Send("{\"cmd\":\"example\"}\n"); std::vector<std::string> v = SplitTabs(wirePeer.ReadLine());
      if (v.size() != 3 || v[0] != "E") HarnessAbort("unexpected answer to the example request");
      std::string pb = FromHex(v[1]); curCppHex = vh::hex(pb.data(), pb.size(), 600); deferredKey.clear(); bool strItems = true;
@@ -1167,11 +1200,11 @@ static void Regress()
      UMessage um; int16 i16 = 0; if (UMInitializeWithExistingData(&um, (const uint8 *)pb.data(), (uint32)pb.size()) != CB_NO_ERROR || UMGetWhatCode(&um) != 666 || UMGetNumFields(&um) != 15 || UMFindInt16(&um, "int16", 1, &i16) != CB_NO_ERROR || i16 != 18 || !UMGetString(&um, "string", 0) || strcmp(UMGetString(&um, "string", 0), "stringme!") != 0) Fail("witness|micro-of-python-example", "UMessage getters on message.py's example");
      if (!caseBad && !deferredKey.empty()) Fail(deferredKey, deferredDetail);
      vh::distinct(vh::fnvs(pb), true); vh::stat("python_documentation_example_checked"); }
-   vh::begin_case(2);   // message.py: FlattenedSize() counts the characters, not the UTF-8 bytes, of a field name -> wrong sub-Message length word
+   if (vh::ctx().from <= 2) vh::begin_case(2); if (vh::ctx().from <= 2)   // message.py: FlattenedSize() counts the characters, not the UTF-8 bytes, of a field name -> wrong sub-Message length word
    { g = vh::Rng(102); Scr s; s.what = 2; Fld f; f.name = "sub"; f.type = B_MESSAGE_TYPE; Scr sub; sub.what = 1; sub.f.push_back(MkI("\xc3\xa9", B_INT32_TYPE, 5, 0, 1)); f.mv.push_back(sub); s.f.push_back(f); s.f.push_back(MkI("z", B_INT8_TYPE, 1, 0, 1)); RunWire(2, s, true); }
-   vh::begin_case(3);   // MicroMessage: UMFindData cannot return a zero-length item that is the last of its field
+   if (vh::ctx().from <= 3) vh::begin_case(3); if (vh::ctx().from <= 3)   // MicroMessage: UMFindData cannot return a zero-length item that is the last of its field
    { g = vh::Rng(103); Scr s; s.what = 3; Fld f; f.name = "r"; f.type = B_RAW_TYPE; f.sv.push_back("xy"); f.sv.push_back(""); s.f.push_back(f); RunWire(3, s, true); }
-   vh::begin_case(4);   // the documented 8-byte frame from all three gateways
+   if (vh::ctx().from <= 4) vh::begin_case(4); if (vh::ctx().from <= 4)   // the documented 8-byte frame from all three gateways
    { g = vh::Rng(104); caseBad = false; if (ugIn.empty()) { ugIn.resize(2 * 1024 * 1024); ugOut.resize(2 * 1024 * 1024); }
      std::vector<Scr> ss(1, DocScript()); std::vector<MessageRef> ms(1, BuildCpp(ss[0])); const std::string body = FromHex(DOC_HEX); curJson.clear(); Json(ss[0], curJson);
      const std::string doc = FromHex("9b000000" "30636e45") + body; curCppHex = vh::hex(doc.data(), doc.size(), 200); std::string sc, sm, su;
@@ -1184,7 +1217,7 @@ static void Regress()
      if (!MiniIn(doc, got, why) || got != want) Fail("witness|mini-gateway-reads-documented-frame", why); got.clear();
      if (!MicroIn(doc, got, why) || got != want) Fail("witness|micro-gateway-reads-documented-frame", why);
      vh::distinct(vh::fnvs(doc), true); vh::stat("documented_frame_checked"); }
-   vh::begin_case(5);   // a numeric field whose ring buffer has WRAPPED (sliding window: remove first, append) must flatten in logical order
+   if (vh::ctx().from <= 5) vh::begin_case(5); if (vh::ctx().from <= 5)   // a numeric field whose ring buffer has WRAPPED (sliding window: remove first, append) must flatten in logical order
    { caseBad = false; Scr s; s.what = 5; MessageRef m = GetMessageFromPool(5); int wrappedSeen = 0;
      for (int i = 0; i < 16; i++) {   // 16 fields with 64..79 slides: wherever the ring's capacity lies, several of them end up wrapped
         Fld f; f.name = vh::fmt("w%d", i); f.type = (i & 1) ? B_INT32_TYPE : B_DOUBLE_TYPE; const String n(f.name.c_str());
@@ -1199,7 +1232,7 @@ static void Regress()
      if (!CheckCpp(*m(), s, why)) Fail("witness|wrapped-ring-field-content", why);
      else if (bc != bm) Fail("witness|wrapped-ring-field-bytes", DiffText("documented (mini codec, built from the script)", bm, "c++ after sliding-window construction", bc));
      vh::distinct(vh::fnvs(bc), true); vh::stat("wrapped_ring_fields_in_witness", wrappedSeen); }
-   vh::begin_case(6);   // bytes parsed INTO A USED OBJECT give the bytes' content, nothing of what the object held before (field-less and subset Messages)
+   if (vh::ctx().from <= 6) vh::begin_case(6); if (vh::ctx().from <= 6)   // bytes parsed INTO A USED OBJECT give the bytes' content, nothing of what the object held before (field-less and subset Messages)
    { caseBad = false; g = vh::Rng(106); const std::string bare = FromHex("30304d50" "07000000" "00000000"), doc = FromHex(DOC_HEX); curJson = "(field-less / subset Message parsed into used targets)"; curCppHex = vh::hex(bare.data(), bare.size());
      Scr none; none.what = 7; Scr onlyA; onlyA.what = 9; onlyA.f.push_back(DocScript().f[0]); MessageRef oa = BuildCpp(onlyA); const std::string onlyABytes = FlatCpp(*oa()); std::string why;
      for (int variant = 0; variant < 4 && !caseBad; variant++) {
@@ -1215,7 +1248,7 @@ static void Regress()
      { std::string line = "{\"case\":6,\"nopy\":\"\",\"script\":"; Json(none, line); line += ",\"prev\":"; Json(DocScript(), line); line += ",\"cpp\":"; JHex(bare, line); line += "}\n"; EnsureWirePeer(); wirePeer.Send(line);
        std::vector<std::string> v = SplitTabs(wirePeer.ReadLine()); if (v.size() != 6 || v[0] != "R") HarnessAbort("unexpected answer from the python peer"); if (v[2] != "-") Fail(v[2], v[3]); if (v[4].find("py_parse_fieldless_into_used_target=1") == std::string::npos) HarnessAbort("python peer did not parse into a used target"); }
      vh::distinct(vh::fnvs(bare), true); vh::stat("used_target_witness_checked"); }
-   vh::begin_case(7);   // a field with ZERO items is wire content: the 80 bytes message.py writes for Message(1234){count=3, levels=[], name="x"}, hand-written
+   if (vh::ctx().from <= 7) vh::begin_case(7); if (vh::ctx().from <= 7)   // a field with ZERO items is wire content: the 80 bytes message.py writes for Message(1234){count=3, levels=[], name="x"}, hand-written
    { g = vh::Rng(107); Scr s; s.what = 1234; s.f.push_back(MkI("count", B_INT32_TYPE, 3, 0, 1)); { Fld f; f.name = "levels"; f.type = B_INT32_TYPE; s.f.push_back(f); } { Fld f; f.name = "name"; f.type = B_STRING_TYPE; f.sv.push_back("x"); s.f.push_back(f); }
      const std::string want = FromHex("30304d50" "d2040000" "03000000" "06000000" "636f756e7400" "474e4f4c" "04000000" "03000000" "07000000" "6c6576656c7300" "474e4f4c" "00000000" "05000000" "6e616d6500" "52545343" "0a000000" "01000000" "02000000" "7800");
      RunWire(7, s, true);      // C++ (sharing route), Python ([] list) and the reference codec build it natively; all parse and re-serialise it
@@ -1224,9 +1257,9 @@ static void Regress()
      MessageRef outer = GetMessageFromPool(1); CKR(outer()->AddMessage("sub", m), "AddMessage"); const std::string ob = FlatCpp(*outer()); Message o2; ConstMessageRef sub;
      if (o2.UnflattenFromBytes((const uint8 *)ob.data(), (uint32)ob.size()).IsError() || o2.FindMessage("sub", sub).IsError() || !CheckCpp(*sub(), s, why) || FlatCpp(o2) != ob || ob.find(want) == std::string::npos) { caseBad = false; Fail("witness|zero-item-field-reserialised-nested", "nested: " + why); }
      vh::stat("zero_item_witness_checked"); }
-   vh::begin_case(8);   // MicroMessage reader: a zero-item field that is the LAST field of its Message must still be visible
+   if (vh::ctx().from <= 8) vh::begin_case(8); if (vh::ctx().from <= 8)   // MicroMessage reader: a zero-item field that is the LAST field of its Message must still be visible
    { g = vh::Rng(108); Scr s; s.what = 1; s.f.push_back(MkI("a", B_INT16_TYPE, 27004, 0, 1)); { Fld f; f.name = "z"; f.type = B_POINT_TYPE; s.f.push_back(f); } RunWire(8, s, true); }
-   vh::begin_case(9);   // C++ senders with zlib encodings: small frames stay Enc0 + plain, the others inflate to the flattened Message; Python and the C gateways refuse ZLIB frames
+   if (vh::ctx().from <= 9) vh::begin_case(9); if (vh::ctx().from <= 9)   // C++ senders with zlib encodings: small frames stay Enc0 + plain, the others inflate to the flattened Message; Python and the C gateways refuse ZLIB frames
    { g = vh::Rng(109); caseBad = false; if (ugIn.empty()) { ugIn.resize(2 * 1024 * 1024); ugOut.resize(2 * 1024 * 1024); } curJson = "(documented example and field-less Messages through zlib senders)"; curCppHex = "";
      Scr none; none.what = 42; std::vector<Scr> mix; mix.push_back(DocScript()); mix.push_back(none); mix.push_back(DocScript()); mix.push_back(none); mix.push_back(none); mix.push_back(DocScript());
      const int levels[3] = {1, 6, 9}; for (int i = 0; i < 3 && !caseBad; i++) ZlibSenderLeg(mix, levels[i], true);
@@ -1238,6 +1271,19 @@ static void Regress()
         EchoDown(true);
      }
      vh::distinct(109, true); vh::stat("zlib_witness_checked"); }
+   if (vh::ctx().from <= 10) vh::begin_case(10); if (vh::ctx().from <= 10)  // DoOutput(maxBytes) with a budget that runs out inside a frame: the next call continues that frame
+   { g = vh::Rng(110); caseBad = false; curJson = "(documented example x3 through DoOutput(maxBytes))"; const std::string frame = FromHex("9b000000" "30636e45") + FromHex(DOC_HEX), doc3 = frame + frame + frame; curCppHex = vh::hex(frame.data(), frame.size(), 64);
+     const uint32 budgets[] = {1, 7, 8, 9, 100, 162, 163, 164, 200, 262144}; long inside = 0;
+     for (size_t bi = 0; bi < sizeof(budgets) / sizeof(budgets[0]) && !caseBad; bi++) for (int chopped = 0; chopped < 2 && !caseBad; chopped++) {
+        MessageIOGateway gw; std::string out; struct Sink : public DataIO { std::string * o; bool chop; virtual io_status_t Read(void *, uint32) { return io_status_t((int32)0); } virtual io_status_t Write(const void * b, uint32 n) { const uint32 k = chop ? Chop(n) : n; o->append((const char *)b, k); return io_status_t((int32)k); } virtual void FlushOutput() {} virtual void Shutdown() {} virtual const ConstSocketRef & GetReadSelectSocket() const { return GetNullSocket(); } virtual const ConstSocketRef & GetWriteSelectSocket() const { return GetNullSocket(); } };
+        Sink * sk = new Sink; sk->o = &out; sk->chop = chopped != 0; gw.SetDataIO(DataIORef(sk));
+        for (int i = 0; i < 3; i++) if (gw.AddOutgoingMessage(BuildCpp(DocScript())).IsError()) HarnessAbort("AddOutgoingMessage");
+        std::vector<size_t> ends; long calls = 0;
+        while (gw.HasBytesToOutput() && calls++ < 100000) { const io_status_t r = gw.DoOutput(budgets[bi]); if (r.IsError()) { Fail("witness|dooutput-budget-stream", std::string("DoOutput: ") + r.GetStatus()()); break; } if ((uint32)r.GetByteCount() == budgets[bi]) ends.push_back(out.size()); }
+        if (!caseBad && out != doc3) Fail("witness|dooutput-budget-stream", vh::fmt("three documented frames through DoOutput(%u)%s: ", budgets[bi], chopped ? " with short writes" : "") + DiffText("documented", doc3, "stream", out));
+        inside += BudgetEndsInsideFrames(doc3, ends);
+     }
+     vh::distinct(110, true); vh::stat("dooutput_budget_ended_inside_a_frame", inside); vh::stat("dooutput_budget_witness_checked"); }
 }
 
 
